@@ -23,10 +23,13 @@ RULE = ('topologies {chain, tee, tee-rejoin, balanced split/join} x required out
         'step over the reference run x restart delay {0, 1 s, 7 s (> connection timeout)} + non-required consumer dying for '
         'good + 10 s stall of a non-required consumer; non-trivial = the kill landed while frames were flowing (>=3 '
         'deliveries before) ; distinct = (topology, victim, restart delay, protocol phase of the victim at the kill, step)')
-ASSUMPTIONS = ['bounded progress in virtual time replaces "eventually": B = ZMQ_CONN_TIMEOUT + 2 s after the last fault action, 2 s otherwise',
+ASSUMPTIONS = ['bounded progress in virtual time replaces "eventually": B = 2 x ZMQ_CONN_TIMEOUT + 2 s after the last fault action (one timeout for the dead peer, one more when its queued requests are read late by a filter that was itself blocked), 2 s otherwise',
                'no loss across a fault is NOT demanded; two simultaneous kills are not generated', 'simnet assumptions of C01']
 EXHAUSTIVE = 'thorough: every 7th scheduler step of the reference run x every victim x 3 restart delays for 8 scenarios per shard'
-B_NS = 7_000_000_000
+# Bounded progress: ZMQ_CONN_TIMEOUT (5 s) for the dead peer to be forgotten, once more for the case that a filter which was
+# itself blocked (waiting for input) reads the dead peer's queued requests late - requests are time-stamped when READ, so they
+# make the dead peer look alive for one more timeout (thorough run: 8.9 s) - plus 2 s to get going again.
+B_NS = 12_000_000_000
 REF_MS = 2500
 
 
@@ -143,7 +146,7 @@ def judge(w, scn, res):
     # ---- ordering still holds
     r2 = common.Result()
     for mech, msg in monitors.check_order(w, topo, r2):
-        if mech in ('duplicate', 'reorder'):
+        if mech in ('duplicate', 'reorder', 'reorder-across-balanced-joiner-restart'):
             bad.append(('order-after-fault:' + mech, msg))
     res.count('deliveries_ordered', r2.counters.get('deliveries_ordered', 0))
     # ---- required output gate
@@ -276,7 +279,7 @@ def run_shard(ctx):
             rng.shuffle(points)
             points = points[:120]
         for victim, step, delay in points:
-            scn = with_fault(base, {'at_step': step, 'kind': 'kill_restart', 'node': victim, 'delay_ms': delay}, delay + 12000)
+            scn = with_fault(base, {'at_step': step, 'kind': 'kill_restart', 'node': victim, 'delay_ms': delay}, delay + 17000)
             try:
                 w, bad = run_one(scn, res)
             except Exception as e:
@@ -285,7 +288,7 @@ def run_shard(ctx):
         # a consumer that is not a required output dies for good / the others must keep moving
         if base['family'] == 'tee' and not base['required']:
             for _ in range(2 if ctx.quick else 10):
-                scn = with_fault(base, {'at_step': rng.randint(N // 8, N), 'kind': 'kill', 'node': 'k1'}, 14000)
+                scn = with_fault(base, {'at_step': rng.randint(N // 8, N), 'kind': 'kill', 'node': 'k1'}, 19000)
                 try:
                     run_one(scn, res)
                     res.count('non_required_consumer_died_for_good')
@@ -299,7 +302,7 @@ def run_shard(ctx):
                     if n_['id'] == 'k1':
                         n_['beh']['stall'] = {'seq': rng.randint(3, 12), 'secs': secs}
                 scn['faults'] = []
-                scn['stop_after'] = {'node': 'k1', 'evs': ['stall-begin'], 'stall-begin_ms': int(secs * 1000) + 3000}
+                scn['stop_after'] = {'node': 'k1', 'evs': ['stall-begin'], 'stall-begin_ms': int(secs * 1000) + 3000 + 5000}
                 try:
                     w = world.run_scenario(scn)
                     res.evaluations += 1
